@@ -106,7 +106,17 @@ func gen(r *rand.Rand, idx int, tier string) Input {
 		if r.Intn(6) == 0 || (in.HTTP && r.Intn(2) == 0) {
 			until -= 1 + r.Int63n(9)
 		}
-		return stor.Op{Kind: "put", Name: s.RandName(r), From: from, Until: until,
+		var fromNs, untilNs int64
+		if !in.HTTP && r.Intn(5) == 0 { // sub-second parts, as direct callers and `now` arguments have them
+			fromNs = r.Int63n(1000000000)
+			if until > from+1 || r.Intn(2) == 0 {
+				untilNs = 1 + r.Int63n(999999999)
+			}
+			if until <= from {
+				fromNs = 0
+			}
+		}
+		return stor.Op{Kind: "put", Name: s.RandName(r), From: from, Until: until, FromNs: fromNs, UntilNs: untilNs,
 			Stacks: stor.EvenStacks(r, 1+r.Intn(4), span, even),
 			Spy: lib.Pick(r, []string{"gospy", "rbspy", "ebpfspy"}), Rate: lib.Pick(r, []uint32{100, 50, 1000}),
 			Units: lib.Pick(r, []string{"samples", "objects", "bytes"}), Agg: aggs[a]}
@@ -139,10 +149,31 @@ func gen(r *rand.Rand, idx int, tier string) Input {
 		if until < from {
 			until = from
 		}
-		return stor.Op{Kind: "get", Name: sel.RandName(r), From: from, Until: until}
+		var fromNs, untilNs int64
+		if !in.HTTP && r.Intn(4) == 0 { // an end just after a slot boundary (first second, sub-second part) and others
+			fromNs = r.Int63n(1000000000)
+			untilNs = 1 + r.Int63n(999999999)
+			if r.Intn(2) == 0 {
+				until = until / 10 * 10
+			}
+			if until <= from {
+				until = from
+				fromNs = 0
+			}
+		}
+		return stor.Op{Kind: "get", Name: sel.RandName(r), From: from, Until: until, FromNs: fromNs, UntilNs: untilNs}
 	}
 	in.Ops = append(in.Ops, mkPut())
 	for i := 1; i < nput; i++ {
+		if r.Intn(8) == 0 { // the previous upload once more, byte for byte (two idle processes of one service; a retry)
+			for j := len(in.Ops) - 1; j >= 0; j-- {
+				if in.Ops[j].Kind == "put" {
+					in.Ops = append(in.Ops, in.Ops[j])
+					break
+				}
+			}
+			continue
+		}
 		in.Ops = append(in.Ops, mkPut())
 		if r.Intn(5) == 0 {
 			in.Ops = append(in.Ops, mkGet())
